@@ -2,7 +2,9 @@ package verifsim
 
 import (
 	"context"
+	"errors"
 	"fmt"
+	"runtime"
 	"sort"
 	"strings"
 	"sync"
@@ -154,6 +156,23 @@ func (s *c17Sim) sink(ctx context.Context, payload any) error {
 	return nil
 }
 
+// shardQueueLen: the capacity of a shard's input queue in the batch processor (one slot per CPU).
+var shardQueueLen = runtime.NumCPU()
+
+// trapCtx is a caller's context whose Err() may park once before answering.
+type trapCtx struct {
+	context.Context
+	park func()
+	once sync.Once
+}
+
+func (c *trapCtx) Err() error {
+	if c.park != nil {
+		c.once.Do(c.park)
+	}
+	return c.Context.Err()
+}
+
 func runC17(r *simkit.Run) {
 	tp := r.Tape
 	cfg := c17Config(tp)
@@ -231,11 +250,22 @@ func runC17(r *simkit.Run) {
 	inSched.Store(false)
 	r.Settle()
 	timeout := time.Duration(cfg.TimeoutS) * time.Second
+	// one producer task carries one request, or (flood) a row of requests sent one after the other: enough of them to
+	// fill the shard's input queue while the next consumer is slow, so that the last ones block on it
+	type prodReq struct {
+		ids       []string
+		grp       string
+		err       error
+		done      atomic.Bool
+		collected bool
+		cancel    context.CancelFunc
+		cancelled bool
+		skipped   bool // never sent
+	}
 	type prod struct {
 		id   int
 		task *simkit.Task
-		ids  []string
-		grp  string
+		reqs []*prodReq
 	}
 	prods := make([]*prod, cfg.Prods)
 	for i := range prods {
@@ -245,34 +275,109 @@ func runC17(r *simkit.Run) {
 	p := pd{sig: cfg.Signal}
 	collect := func() {
 		for _, pr := range prods {
-			if pr.task != nil && pr.task.Done() {
-				err := pr.task.Err
-				if err != nil {
-					r.Logf("  p%d refused: %s", pr.id, simkit.ShortErr(err))
-					// beyond the cardinality limit: the group must be new and the limit reached
-					if cfg.Limit == 0 || s.groupsSeen[pr.grp] || len(s.groupsSeen) < cfg.Limit {
-						r.Failf("cardinality", "spurious-refusal", "request of group %q refused with %v; limit %d, groups so far %d", pr.grp, err, cfg.Limit, len(s.groupsSeen))
-					}
-					r.Count("probe.refused_beyond_cardinality_limit")
-					for _, id := range pr.ids {
+			if pr.task == nil {
+				continue
+			}
+			for _, q := range pr.reqs {
+				if q.collected || !q.done.Load() {
+					continue
+				}
+				q.collected = true
+				err := q.err
+				switch {
+				case q.skipped:
+					for _, id := range q.ids {
 						delete(s.items, id)
 					}
-				} else {
-					if cfg.Limit > 0 && !s.groupsSeen[pr.grp] && len(s.groupsSeen) >= cfg.Limit {
-						r.Failf("cardinality", "limit-exceeded", "request of new group %q accepted although %d groups exist and the limit is %d", pr.grp, len(s.groupsSeen), cfg.Limit)
+				case err != nil && q.cancelled && errors.Is(err, context.Canceled):
+					// the caller had given up: refused, so none of it may be emitted
+					r.Logf("  p%d refused: its context was cancelled", pr.id)
+					r.Count("probe.refused_cancelled_caller")
+					for _, id := range q.ids {
+						delete(s.items, id)
 					}
-					s.groupsSeen[pr.grp] = true
-					for _, id := range pr.ids {
+				case err != nil:
+					r.Logf("  p%d refused: %s", pr.id, simkit.ShortErr(err))
+					// beyond the cardinality limit: the group must be new and the limit reached
+					if cfg.Limit == 0 || s.groupsSeen[q.grp] || len(s.groupsSeen) < cfg.Limit {
+						r.Failf("cardinality", "spurious-refusal", "request of group %q refused with %v; limit %d, groups so far %d", q.grp, err, cfg.Limit, len(s.groupsSeen))
+					}
+					r.Count("probe.refused_beyond_cardinality_limit")
+					for _, id := range q.ids {
+						delete(s.items, id)
+					}
+				default:
+					if cfg.Limit > 0 && !s.groupsSeen[q.grp] && len(s.groupsSeen) >= cfg.Limit {
+						r.Failf("cardinality", "limit-exceeded", "request of new group %q accepted although %d groups exist and the limit is %d", q.grp, len(s.groupsSeen), cfg.Limit)
+					}
+					s.groupsSeen[q.grp] = true
+					for _, id := range q.ids {
 						s.items[id].accepted = time.Now()
 						if !s.shutFired {
 							s.items[id].inA = true
 						}
 					}
 				}
+			}
+			if pr.task.Done() {
 				pr.task = nil
+				pr.reqs = nil
 			}
 		}
 	}
+	// newReq generates one request (payload, model entries) with the given client metadata
+	type reqPayload struct {
+		q       *prodReq
+		ctx     context.Context
+		payload any
+	}
+	newReq := func(pr *prod, md map[string][]string) reqPayload {
+		payload := p.gen(tp, s.ids)
+		if tp.Chance(1, 3) {
+			gen.Enrich(tp, payload, false) // every field of the data model travels through merge and split
+		}
+		deep := gen.DeepItems(payload)
+		q := &prodReq{grp: groupOf(cfg.Keys, md)}
+		var items map[string]string
+		switch cfg.Signal {
+		case sigLogs:
+			items = gen.LogItems(payload.(plog.Logs))
+		case sigTraces:
+			items = gen.SpanItems(payload.(ptrace.Traces))
+		default:
+			items = gen.PointItems(payload.(pmetric.Metrics))
+		}
+		nreq++
+		for id, fp := range items {
+			s.items[id] = &c17Item{fp: fp, deep: deep[id], group: q.grp, req: nreq}
+			q.ids = append(q.ids, id)
+		}
+		sort.Strings(q.ids)
+		r.Logf("  request %d: %d items group %q", nreq, len(items), q.grp)
+		cctx, cancel := context.WithCancel(client.NewContext(context.Background(), client.Info{Metadata: client.NewMetadata(md)}))
+		q.cancel = cancel
+		// The caller's context, as far as the processor can tell an ordinary one; when armed, a call of Err() parks
+		// once (the caller may then give up before the call returns). The shipped processor never asks.
+		tc := &trapCtx{Context: cctx}
+		if tp.Chance(1, 3) {
+			name := fmt.Sprintf("yield:p%d:ctx.Err#%d", pr.id, nreq)
+			tc.park = func() { yg.Park(name) }
+		}
+		pr.reqs = append(pr.reqs, q)
+		return reqPayload{q: q, ctx: tc, payload: payload}
+	}
+	drawMD := func() map[string][]string {
+		md := map[string][]string{}
+		if len(cfg.Keys) > 0 {
+			md["tenant"] = [][]string{{"a"}, {"b"}, {"a", "b"}, nil, {"b", "a"}, {"a,b"}, {""}}[tp.Weighted(3, 3, 2, 2, 1, 1, 1)]
+			if len(cfg.Keys) > 1 {
+				md["region"] = [][]string{{"eu"}, {"us"}, nil}[tp.Draw(3)]
+			}
+		}
+		return md
+	}
+	floods := 0
+	var shutFlag atomic.Bool
 	for step := 0; step < cfg.Steps && !r.Failed(); step++ {
 		var ch []simkit.Choice
 		if !s.shutFired {
@@ -280,39 +385,38 @@ func runC17(r *simkit.Run) {
 				if pr.task == nil {
 					pr := pr
 					ch = append(ch, simkit.Choice{Name: fmt.Sprintf("offer:p%d", pr.id), W: 5, Fire: func() {
-						payload := p.gen(tp, s.ids)
-						if tp.Chance(1, 2) {
-							gen.Enrich(tp, payload, false) // every field of the data model travels through merge and split
-						}
-						deep := gen.DeepItems(payload)
-						md := map[string][]string{}
-						if len(cfg.Keys) > 0 {
-							md["tenant"] = [][]string{{"a"}, {"b"}, {"a", "b"}, nil, {"b", "a"}, {"a,b"}, {""}}[tp.Weighted(3, 3, 2, 2, 1, 1, 1)]
-							if len(cfg.Keys) > 1 {
-								md["region"] = [][]string{{"eu"}, {"us"}, nil}[tp.Draw(3)]
-							}
-						}
-						pr.grp = groupOf(cfg.Keys, md)
-						var items map[string]string
-						switch cfg.Signal {
-						case sigLogs:
-							items = gen.LogItems(payload.(plog.Logs))
-						case sigTraces:
-							items = gen.SpanItems(payload.(ptrace.Traces))
-						default:
-							items = gen.PointItems(payload.(pmetric.Metrics))
-						}
-						nreq++
-						pr.ids = pr.ids[:0]
-						for id, fp := range items {
-							s.items[id] = &c17Item{fp: fp, deep: deep[id], group: pr.grp, req: nreq}
-							pr.ids = append(pr.ids, id)
-						}
-						sort.Strings(pr.ids)
-						r.Logf("  request %d: %d items group %q", nreq, len(items), pr.grp)
-						ctx := client.NewContext(context.Background(), client.Info{Metadata: client.NewMetadata(md)})
-						pr.task = simkit.Go(fmt.Sprintf("p%d", pr.id), func(t *simkit.Task) { t.Err = consume(ctx, payload) })
+						rp := newReq(pr, drawMD())
+						pr.task = simkit.Go(fmt.Sprintf("p%d", pr.id), func(t *simkit.Task) {
+							rp.q.err = consume(rp.ctx, rp.payload)
+							rp.q.done.Store(true)
+						})
 					}})
+					if len(s.gate.Parked()) > 0 && floods < 1 {
+						// the next consumer is busy: one producer sends a row of requests of one group, one more than the
+						// shard's input queue holds (once per run, and no more than that: a shard that has shut down
+						// receives nothing any more, whoever still sends after that would block for ever)
+						ch = append(ch, simkit.Choice{Name: fmt.Sprintf("flood:p%d", pr.id), W: 1, Fire: func() {
+							floods++
+							r.Count("fault.flood_while_next_consumer_is_busy")
+							md := drawMD()
+							var rps []reqPayload
+							for k := 0; k < shardQueueLen+1; k++ {
+								rps = append(rps, newReq(pr, md))
+							}
+							pr.task = simkit.Go(fmt.Sprintf("p%d", pr.id), func(t *simkit.Task) {
+								for _, rp := range rps {
+									if shutFlag.Load() {
+										// nothing is sent to a processor that is shutting down (its shards stop receiving)
+										rp.q.skipped = true
+										rp.q.done.Store(true)
+										continue
+									}
+									rp.q.err = consume(rp.ctx, rp.payload)
+									rp.q.done.Store(true)
+								}
+							})
+						}})
+					}
 					break
 				}
 			}
@@ -326,6 +430,23 @@ func runC17(r *simkit.Run) {
 			id := id
 			ch = append(ch, simkit.Choice{Name: "release:" + id, W: 3, Fire: func() { yg.Release(id, nil) }})
 		}
+		for _, pr := range prods {
+			if pr.task == nil || pr.task.Done() {
+				continue
+			}
+			for qi, q := range pr.reqs {
+				if !q.done.Load() && !q.cancelled {
+					// the caller of the request in progress gives up (first unfinished request of the task)
+					q := q
+					ch = append(ch, simkit.Choice{Name: fmt.Sprintf("caller-gives-up:p%d#%d", pr.id, qi), W: 1, Fire: func() {
+						r.Count("fault.caller_context_cancelled")
+						q.cancelled = true
+						q.cancel()
+					}})
+					break
+				}
+			}
+		}
 		if timeout > 0 {
 			ch = append(ch, simkit.Choice{Name: "advance:timeout", W: 2, Fire: func() { time.Sleep(timeout) }})
 			ch = append(ch, simkit.Choice{Name: "advance:half", W: 1, Fire: func() { time.Sleep(timeout / 2) }})
@@ -334,6 +455,7 @@ func runC17(r *simkit.Run) {
 			ch = append(ch, simkit.Choice{Name: "shutdown", W: 1, Fire: func() {
 				collect() // producers whose Consume has returned by now are in A
 				s.shutFired = true
+				shutFlag.Store(true)
 				s.shut = simkit.Go("shutdown", func(t *simkit.Task) { t.Err = proc.Shutdown(context.Background()) })
 			}})
 		}
@@ -355,6 +477,7 @@ func runC17(r *simkit.Run) {
 		r.Fire("shutdown", func() {
 			collect()
 			s.shutFired = true
+			shutFlag.Store(true)
 			s.shut = simkit.Go("shutdown", func(t *simkit.Task) { t.Err = proc.Shutdown(context.Background()) })
 		})
 		collect()
@@ -494,5 +617,5 @@ var HarnessC17 = simkit.Harness{
 	Prop: "C17", Name: "svc/c17", Run: runC17, StepTimeout: 20e9, HashInsensitive: true,
 	Real: []string{"batchprocessor factory-built processors for logs, traces and metrics (shards, timer, split*, metadata sharding, cardinality limit)", "client.Info metadata propagation"},
 	Stub: []string{"downstream sink following a tape-drawn plan per call (ok / error / park until released)", "producers with client metadata from a small alphabet"},
-	Rule: "one run = one tape-drawn configuration accepted by Validate() (timeout, send_batch_size, send_batch_max_size, metadata_keys, cardinality limit), generated payloads with unique item ids from 1-4 concurrent producers with client metadata, a per-call sink plan, and a schedule of offer / clock advance (timeout, half) / sink release ok|error / shutdown events, shutdown possible at any step; the conservation, identity, size, grouping and cardinality clauses are checked after every event, the flush clauses only for groups whose sink is not and has not been slow; distinct = distinct event-log hash; non-trivial = a batch with >1 item",
+	Rule: "one run = one tape-drawn configuration accepted by Validate() (timeout, send_batch_size, send_batch_max_size, metadata_keys, cardinality limit), generated payloads with unique item ids from 1-4 concurrent producers with client metadata, a per-call sink plan, and a schedule of offer / flood (once per run, while the sink is busy: one more request than a shard's input queue holds, so the last one blocks) / caller gives up (context cancelled; the context's Err() may park once) / clock advance (timeout, half) / sink release ok|error / shutdown events, shutdown possible at any step; the conservation, identity, size, grouping and cardinality clauses are checked after every event, the flush clauses only for groups whose sink is not and has not been slow; distinct = distinct event-log hash; non-trivial = a batch with >1 item",
 }
